@@ -2,6 +2,7 @@ import Driver.Proto
 import Driver.Algo
 import Driver.Tok
 import Fzf.Model.Filter
+import Fzf.Model.Matcher
 namespace Driver.Matcher
 open Fzf Fzf.Algo Driver
 
@@ -43,6 +44,37 @@ def run (ctx : Algo.Ctx) (op : String) (args impl : List String) : Outcome :=
     { model := if okOutcome then implS else full, same := some okOutcome,
       spec := if okOutcome then specOk else specFail "[C13] a scan returned something other than the complete result of its snapshot or a cancellation",
       tags := ["scan"] ++ (if ls.length > 100 then ["multichunk", "nt"] else []) ++ (if cancel != "0" then ["cancel"] else []) }
+  | "hist", [linesA, linesB, reqs, tac] =>
+    let sets := [parseStrList linesA, parseStrList linesB]
+    let raw := (reqs.splitOn ";").map (·.splitOn "~")
+    -- pattern strings (trimmed queries) numbered in order of appearance
+    let pstr (q : String) : Str := Utf8.fromRunes (Fzf.Pattern.trimQueryExtended (Utf8.toRunes (parseNatList q)))
+    let pats := (raw.map fun f => pstr (f.getD 0 "-")).eraseDups
+    let firstSet := ((raw.headD []).getD 1 "0").toNat!
+    let rs : List (Fzf.Matcher.SReq × Str) := raw.map fun f =>
+      let set := (f.getD 1 "0").toNat!
+      let upto := (f.getD 2 "0").toNat!
+      ({ pat := pats.idxOf (pstr (f.getD 0 "-")), snap := set * 1000000 + upto, count := upto,
+         final := f.getD 3 "0" == "1", sort := f.getD 4 "1" == "1", rev := if set == firstSet then 0 else 1 },
+       parseNatList (f.getD 0 "-"))
+    let queryOf (r : Fzf.Matcher.SReq) : Str := ((rs.find? fun x => x.1 == r).map (·.2)).getD []
+    let scan (r : Fzf.Matcher.SReq) : List Nat :=
+      let set := r.snap / 1000000
+      results ctx ((sets.getD set []).take r.count) (queryOf r) r.sort (tac == "1")
+    let published := Fzf.Matcher.serveAll scan (fun l => l.length < Generated.mergerCacheMax) { sort := true, rev := 0 } (rs.map (·.1))
+    let model := ";".intercalate (published.map showNatList)
+    let implL := ((" ".intercalate impl).splitOn ";").map parseNatList
+    let fresh := rs.map fun x => scan x.1
+    let badFinal := (List.zip (List.zip (rs.map (·.1)) implL) fresh).filter fun ((r, got), want) => r.final && got != want
+    let stale := (List.zip published fresh).any fun (a, b) => a != b
+    { model,
+      spec := match badFinal with
+        | ((r, _), _) :: _ => specFail s!"[C08] after input had ended a request (query {showNatList (queryOf r)}, {r.count} items) was answered with something other than a fresh filter of the loaded input"
+        | [] => if implL.length != rs.length then specFail "[C08] a request was never answered" else specOk,
+      tags := ["hist", "nt"] ++ (if stale then ["stale-transient"] else []) ++
+        (if rs.any (fun x => x.1.rev == 1) then ["reload"] else []) ++
+        (if (rs.map (·.1.sort)).eraseDups.length > 1 then ["sort-toggle"] else []) ++
+        (if rs.any (fun x => x.2.contains 9) then ["tab-query"] else []) }
   | "conc", [lines, _qs, sort, tac, _yield] =>
     let ls := parseStrList lines
     let recs := if impl == ["_"] then [] else ((" ".intercalate impl).splitOn ";").map (·.splitOn "~")
